@@ -88,7 +88,8 @@ def build_harness(pkg, outdir):
             shutil.copytree(HARNESS, hdir)
             gm = open(os.path.join(hdir, 'go.mod')).read().replace('=> /repo', '=> ' + REPO)
             open(os.path.join(hdir, 'go.mod'), 'w').write(gm)
-    p = subprocess.run([GO, 'test', '-tags', 'verif', '-c', '-o', binp, './' + pkg], cwd=hdir, env=GOENV,
+    race = ['-race'] if os.environ.get('VERIF_RACE') else []      # development aid: data races in the HARNESS itself
+    p = subprocess.run([GO, 'test', '-tags', 'verif'] + race + ['-c', '-o', binp, './' + pkg], cwd=hdir, env=dict(GOENV, CGO_ENABLED='1') if race else GOENV,
                        stdout=subprocess.PIPE, stderr=subprocess.STDOUT, text=True)
     if p.returncode != 0 or not os.path.exists(binp):
         raise ToolError('building harness package %s against /repo failed:\n%s' % (pkg, p.stdout[-4000:]))
